@@ -2,8 +2,68 @@
 
 package io
 
+import (
+	"fmt"
+	"os"
+	"strings"
+	"sync"
+)
+
 // VerifCursor exposes the number of consumed slots (position + 1) to the
 // verification harness in /verif. Compiled only with the "verif" build tag.
 func (c *StringScanner) VerifCursor() int {
 	return c.position + 1
+}
+
+// ---- call tracing (used to validate the scanner calls made by the repository's own test-suite) ----
+//
+// When the environment variable VERIF_SCAN_TRACE names a file prefix, every scanner created in this
+// process logs one NDJSON line per state-changing call (new, read, unread, reset) to <prefix>.<pid>:
+// the instance number, the call, and what the scanner reports afterwards (cursor, line, column and
+// the three peeks, then cursor/line/column again). The line is written after the change, at the
+// call's return; instances are numbered under the same lock that orders the lines.
+
+var verifTrace struct {
+	mu   sync.Mutex
+	file *os.File
+	ids  map[*StringScanner]int
+}
+
+func init() {
+	if prefix := os.Getenv("VERIF_SCAN_TRACE"); prefix != "" {
+		f, err := os.Create(fmt.Sprintf("%s.%d", prefix, os.Getpid()))
+		if err == nil {
+			verifTrace.file = f
+			verifTrace.ids = map[*StringScanner]int{}
+		}
+	}
+}
+
+func (c *StringScanner) verifEvent(op string) {
+	if verifTrace.file == nil {
+		return
+	}
+	verifTrace.mu.Lock()
+	defer verifTrace.mu.Unlock()
+	id, ok := verifTrace.ids[c]
+	if !ok {
+		id = len(verifTrace.ids) + 1
+		verifTrace.ids[c] = id
+	}
+	var b strings.Builder
+	fmt.Fprintf(&b, `{"inst":%d,"op":%q`, id, op)
+	if op == "new" {
+		b.WriteString(`,"content":[`)
+		for i, r := range c.content {
+			if i > 0 {
+				b.WriteByte(',')
+			}
+			fmt.Fprintf(&b, "%d", r)
+		}
+		b.WriteString("]")
+	}
+	k, l, col := c.position+1, c.Line(), c.Column()
+	fmt.Fprintf(&b, `,"obs":{"k":%d,"line":%d,"col":%d,"peek":%d,"pline":%d,"pcol":%d,"k2":%d,"line2":%d,"col2":%d}}`+"\n",
+		k, l, col, c.Peek(), c.PeekLine(), c.PeekColumn(), c.position+1, c.Line(), c.Column())
+	verifTrace.file.WriteString(b.String())
 }
